@@ -146,6 +146,95 @@ func caErrStep(p *pkg, st ast.Stmt) (string, bool) {
 	return sel.Sel.Name, true
 }
 
+// caCallbackNames: the optional user callbacks of Config the client consults about its peer.
+var caCallbackNames = []string{"VerifyPeerCertificate", "VerifyConnection"}
+
+func caIsCallbackName(n string) bool {
+	for _, c := range caCallbackNames {
+		if c == n {
+			return true
+		}
+	}
+	return false
+}
+
+// caCallbackRefusal recognises the one shape in which a callback can only ADD a refusal:
+//
+//	if c.config.N != nil { if err (:=|=) c.config.N(...); err != nil { …; return err } }
+//
+// (nothing else inside the nil test, no else branches) and returns N.
+func caCallbackRefusal(p *pkg, st ast.Stmt) (string, bool) {
+	is, ok := st.(*ast.IfStmt)
+	if !ok || is.Init != nil || is.Else != nil || len(is.Body.List) != 1 {
+		return "", false
+	}
+	be, ok := is.Cond.(*ast.BinaryExpr)
+	if !ok || be.Op != token.NEQ || p.src(be.Y) != "nil" {
+		return "", false
+	}
+	sel, ok := be.X.(*ast.SelectorExpr)
+	if !ok || p.src(sel.X) != "c.config" || !caIsCallbackName(sel.Sel.Name) {
+		return "", false
+	}
+	in, ok := is.Body.List[0].(*ast.IfStmt)
+	if !ok || in.Init == nil || in.Else != nil || p.src(in.Cond) != "err != nil" || len(in.Body.List) == 0 {
+		return "", false
+	}
+	as, ok := in.Init.(*ast.AssignStmt)
+	if !ok || len(as.Lhs) != 1 || len(as.Rhs) != 1 || p.src(as.Lhs[0]) != "err" {
+		return "", false
+	}
+	call, ok := as.Rhs[0].(*ast.CallExpr)
+	if !ok || p.src(call.Fun) != "c.config."+sel.Sel.Name {
+		return "", false
+	}
+	// the arguments do not consult a callback either
+	for _, a := range call.Args {
+		if caCountCallbackRefs(a) != 0 {
+			return "", false
+		}
+	}
+	for _, b := range in.Body.List[:len(in.Body.List)-1] {
+		if caCountCallbackRefs(b) != 0 {
+			return "", false
+		}
+	}
+	rs, ok := in.Body.List[len(in.Body.List)-1].(*ast.ReturnStmt)
+	if !ok || len(rs.Results) != 1 || p.src(rs.Results[0]) != "err" {
+		return "", false
+	}
+	return sel.Sel.Name, true
+}
+
+// caCountCallbackRefs counts the mentions of a callback field (`….VerifyPeerCertificate`,
+// `….VerifyConnection`) below n.
+func caCountCallbackRefs(n ast.Node) int {
+	cnt := 0
+	ast.Inspect(n, func(x ast.Node) bool {
+		if sel, ok := x.(*ast.SelectorExpr); ok && caIsCallbackName(sel.Sel.Name) {
+			cnt++
+		}
+		return true
+	})
+	return cnt
+}
+
+// caIsClientAuthFunc: the functions on the client's path from ClientHello to completion.
+func caIsClientAuthFunc(key string) bool {
+	return strings.HasPrefix(key, "clientHandshakeState.") || key == "Conn.clientHandshake" ||
+		key == "Conn.verifyServerCertificate" || key == "Conn.loadSession" || key == "Conn.verifySessionCertificates" ||
+		strings.HasSuffix(key, "KeyAgreement.processServerKeyExchange") ||
+		strings.HasSuffix(key, "KeyAgreement.generateClientKeyExchange")
+}
+
+// caStep: an error-checked call of handshake() or a callback refusal block
+func caStep(p *pkg, st ast.Stmt) (string, bool) {
+	if nm, ok := caErrStep(p, st); ok {
+		return nm, true
+	}
+	return caCallbackRefusal(p, st)
+}
+
 // caVerifyShape inspects a function body for the chain-verification block:
 // `if <guard> { opts := x509.VerifyOptions{...}; ...; certs[i].Verify(opts) ... }`.
 func caVerifyShape(p *pkg, fd *ast.FuncDecl) (guard string, opts []string, idx []int64, minCerts int64, okMin bool) {
@@ -322,6 +411,64 @@ func emitClientAuthn(e *emitter, p *pkg) {
 	}
 	e.strList("caSigKeyTypesAccepted", kinds)
 
+	// --- the user callbacks: which ones verifyServerCertificate consults, in the refusal-only
+	// shape, at its top level, and whether all of them come after the built-in checks (the
+	// chain-verification block and the key-type switch); every other mention of a callback on
+	// the client's path (a test that makes a built-in check conditional, a call whose result is
+	// used differently) is counted
+	var cbs []string
+	cbAfter := true
+	refusalRefs := 0
+	if fd := p.funcs["Conn.verifyServerCertificate"]; fd != nil && fd.Body != nil {
+		lastBuiltin := -1
+		for i, st := range fd.Body.List {
+			switch t := st.(type) {
+			case *ast.TypeSwitchStmt:
+				lastBuiltin = i
+			case *ast.IfStmt:
+				if p.src(t.Cond) == guard && guard != "" {
+					lastBuiltin = i
+				}
+			}
+		}
+		for i, st := range fd.Body.List {
+			if nm, ok := caCallbackRefusal(p, st); ok {
+				cbs = append(cbs, nm)
+				refusalRefs += 2
+				if i < lastBuiltin {
+					cbAfter = false
+				}
+			}
+		}
+	}
+	for _, st := range body(p, "clientHandshakeState.handshake") {
+		is, ok := st.(*ast.IfStmt)
+		if !ok || p.src(is.Cond) != "isResume" {
+			continue
+		}
+		for _, s := range is.Body.List {
+			if _, ok := caCallbackRefusal(p, s); ok {
+				refusalRefs += 2
+			}
+		}
+		if els, ok := is.Else.(*ast.BlockStmt); ok {
+			for _, s := range els.List {
+				if _, ok := caCallbackRefusal(p, s); ok {
+					refusalRefs += 2
+				}
+			}
+		}
+	}
+	totalRefs := 0
+	for key, fd := range p.funcs {
+		if fd.Body != nil && caIsClientAuthFunc(key) {
+			totalRefs += caCountCallbackRefs(fd.Body)
+		}
+	}
+	e.strList("caFullCallbacks", cbs)
+	e.boolean("caCallbacksAfterBuiltin", cbAfter)
+	e.raw("caCallbackRefsOutsideRefusal", "Nat", strconv.Itoa(totalRefs-refusalRefs), totalRefs-refusalRefs)
+
 	// --- F13: are the certificates recorded in a session re-verified under the current
 	// configuration before the session is used? Two accepted places: loadSession (before the
 	// session id is offered: `if err := c.X(session.peerCertificates); err != nil { return …, nil }`)
@@ -479,12 +626,12 @@ func emitClientAuthn(e *emitter, p *pkg) {
 			continue
 		}
 		for _, s := range is.Body.List {
-			if nm, ok := caErrStep(p, s); ok {
+			if nm, ok := caStep(p, s); ok {
 				resume = append(resume, nm)
 			}
 		}
 		for _, s := range els.List {
-			if nm, ok := caErrStep(p, s); ok {
+			if nm, ok := caStep(p, s); ok {
 				full = append(full, nm)
 			}
 		}
